@@ -982,6 +982,10 @@ class ESME:
 
                 self._bound.clear()
                 self._session_state = SmppSessionState.CLOSED
+                if self._writer is not None:
+                    # The cycle is over (failed bind, broken or stopped session): don't leave
+                    # the connection open during back-off or after shutdown
+                    self._writer.close()
                 if conn_error:
                     self._logger.error(error_message, exception=repr(conn_error))
                 if self._is_shutting_down:
